@@ -5,10 +5,19 @@
      D <hexcred> [<euid> <egid>]
    Output per line:
      E <err> <hex cred or -> <hex errstr>
-     D <err> <cipher> <mac> <zip> <ttl> <time0> <time1> <uid> <gid> <auth_uid> <auth_gid> <len> <hex payload or -> <hex errstr> */
+     D <err> <cipher> <mac> <zip> <ttl> <time0> <time1> <uid> <gid> <auth_uid> <auth_gid> <len> <hex payload or -> <hex errstr>
+   Only when harness/c13_shims.c is linked in (the C13 check; the hooks below are weak and absent otherwise):
+     P <plan>   passes <plan> to the shims (see c13_shims.c), answers "P <n>"
+     every E/D answer line is followed by a line "T <trace of the call>"
+     (the trace is taken before munge_ctx_destroy) */
 #include "hexio.h"
 #include <unistd.h>
 #include <munge.h>
+
+/* optional hooks of harness/c13_shims.c */
+__attribute__((weak)) void c13_trace_begin (void);
+__attribute__((weak)) void c13_trace_print (void);
+__attribute__((weak)) int c13_plan (const char *s);
 
 static char *line;
 #define LINE_MAX_ (5 << 20)
@@ -22,6 +31,12 @@ int main(int argc, char **argv) {
         char *nl = strchr(line, '\n'); if (nl) *nl = 0;
         munge_ctx_t ctx = munge_ctx_create();
         munge_ctx_set(ctx, MUNGE_OPT_SOCKET, argv[1]);
+        if (line[0] == 'P' && line[1] == ' ') {
+            printf("P %d\n", c13_plan ? c13_plan(line + 2) : -1);
+            munge_ctx_destroy(ctx); fflush(stdout);
+            continue;
+        }
+        if (c13_trace_begin && (line[0] == 'E' || line[0] == 'D')) c13_trace_begin();
         if (line[0] == 'E') {
             char *tok[10]; int n = 0; char *save = NULL, *t;
             for (t = strtok_r(line + 2, " ", &save); t && n < 10; t = strtok_r(NULL, " ", &save)) tok[n++] = t;
@@ -63,6 +78,7 @@ int main(int argc, char **argv) {
             printf("\n");
             free(c); free(cred); free(buf);
         } else printf("? %s\n", line);
+        if (c13_trace_print && (line[0] == 'E' || line[0] == 'D')) c13_trace_print();
         munge_ctx_destroy(ctx);
         fflush(stdout);
     }
